@@ -304,14 +304,14 @@ class C14(DiffProperty):
             "{unnamed,a,b,c}, values from {none,1,2}) plus whatever cloning adds: new, gnode_after/before, gnode_add/node_add "
             "and gnode_insert/node_insert at positions {0,1,n,-n} (by position and by name), unlink, node_move of a child "
             "list or a local list into a list with overlapping names, node/list/tree clone (depth >= 2), clear, destroy, "
-            "gnode_swap/switch/relink, traversal orders; after EVERY operation the harness dumps all raw links, its own "
+            "gnode_swap/switch/relink, traversal orders, node_find/node_next; after EVERY operation the harness dumps all raw links, its own "
             "well-formedness verdict and the shape; a case is non-trivial when at least one node gets linked; distinct = "
             "distinct case text")
     modelled = ("mptcore/node/{gnode_after,gnode_before,gnode_pos,node_insert,node_locate,node_unlink,node_move,node_clone,"
-                "tree_clone,node_clear,node_destroy,gnode_swap,gnode_relink,gnode_traverse(pre/in/post)}.c transcribed in "
+                "tree_clone,node_clear,node_destroy,gnode_swap,gnode_relink,gnode_traverse(pre/in/post),node_find,node_next}.c transcribed in "
                 "coq/C14/NodeModel.v over a pointer heap; identifier comparison is modelled as equality of short names "
                 "(charset/length cases of mpt_node_locate beyond that are not modelled); malloc failure paths, "
-                "gnode_traverse level order, gnode_level.c, node_find.c/node_next.c are not modelled")
+                "gnode_traverse level order / gnode_level.c are not modelled")
     trusted = ["harness/c14_node.c reads every node's next/prev/parent/children from its own table after each operation and "
                "computes the well-formedness verdict itself; freed memory is recognised by ASan poisoning; LeakSanitizer "
                "is run after the final clean-up",
@@ -325,8 +325,8 @@ class C14(DiffProperty):
                   "language — new, gnode_after/before, gnode_add/node_add and gnode_insert/node_insert at every position "
                   "code (by position and by name), unlink, mpt_node_move (merge of lists with overlapping names, "
                   "recursively, from a child list or a local list), node/list/tree clone, clear, destroy, gnode_swap, "
-                  "gnode_switch (also of adjacent siblings), gnode_relink, the three traversal orders and the final "
-                  "clean-up — that the transcribed pointer mechanism never dereferences NULL or freed memory, never frees "
+                  "gnode_switch (also of adjacent siblings), gnode_relink, the three traversal orders, node_find/node_next and "
+                  "the final clean-up — that the transcribed pointer mechanism never dereferences NULL or freed memory, never frees "
                   "twice, returns what the forest operation returns and after EVERY step has exactly the links the "
                   "resulting forest dictates — which implies every explicit link rule (next/prev agree, every child names "
                   "its parent, children = list head, parent and next chains end, pointers name live cells) —, that every "
@@ -336,7 +336,7 @@ class C14(DiffProperty):
                   "ASan/UBSan/LSan with a full raw-link dump and an independent well-formedness verdict after every operation")
     level_note = ("Trusted: Coq kernel; hand transcription of mptcore/node/*.c (validated by the correspondence run, not "
                   "verified); names are modelled as 4 codes with equality (identifier charset/length variants of "
-                  "mpt_node_locate are not modelled); malloc failure, level-order traversal, node_find/node_next not "
+                  "mpt_node_locate are not modelled); malloc failure and the level-order traversal (gnode_level.c) are not "
                   "modelled; the guards of the history language (insert only unlinked nodes, never below themselves; merge "
                   "only lists of different top-level lists; swap/switch only nodes that are not ancestor-related) are "
                   "callers' obligations, evaluated identically by harness, model and specification; extraction "
